@@ -277,8 +277,10 @@ def make_pfq_cell(fname, label, nup, nlow, nlo, nhi, zlo, zhi, dens=(1, 2, 3, 4,
     return cell
 
 
-def make_poly_cell(fname, label, npar, nlo, nhi, xlo, xhi, par_lo=-3, par_hi=6, dens=(1, 2, 3, 4, 5, 8), positive_par=False,
-                   heavy=False, par_gt=None):
+def make_poly_cell(fname, label, npar, nlo, nhi, xlo, xhi, par_lo=-3, par_hi=6, dens=(1, 2, 4, 8, 16), positive_par=False,
+                   heavy=False, par_gt=None, xgen=None):
+    """orthogonal polynomial of integer degree, dyadic rational parameters passed as exact mpf (these functions convert their
+    parameters with ctx.convert, which does not take (p, q) tuples), dyadic argument"""
     def run(tree_mp, rec, prop, p, n, pars, x, frm):
         exact = exact_poly(fname, n, pars, x)
         case = {'params': [[n, 1]] + [_fmt_q(a) for a in pars], 'z': _fmt_q(x), 'form': frm}
@@ -300,8 +302,8 @@ def make_poly_cell(fname, label, npar, nlo, nhi, xlo, xhi, par_lo=-3, par_hi=6, 
             pars = [_rand_rational(r, par_lo, par_hi, dens, positive=positive_par) for _ in range(npar)]
             if par_gt is None or all(a > par_gt for a in pars):
                 break
-        x = _rand_dyadic_z(r, bits, xlo, xhi)
-        return run(tree_mp, rec, cell[0], p, n, pars, x, r.choice(['tuple', 'mpf']))
+        x = xgen(r, bits) if xgen else _rand_dyadic_z(r, bits, xlo, xhi)
+        return run(tree_mp, rec, cell[0], p, n, pars, x, 'mpf')
 
     def rp(tree_mp, rec, c, cell):
         from vf.core import unjson_int
@@ -581,7 +583,7 @@ def t_hyper():
         RG('3F1(borel)/small-neg', A(p_gen, p_gen, p_gen, p_gpos, real_in(-30, -8, 1)), fn=f_hyper(3, 1)),
         RG('3F1(borel)/moderate-neg', A(p_gen, p_gen, p_gen, p_gpos, uniform_bits(-1.0, -0.02)), fn=f_hyper(3, 1), **HV),
         RG('3F0(borel)/small-neg', A(p_gen, p_gen, p_gen, real_in(-30, -8, 1)), fn=f_hyper(3, 0)),
-        RG('common-parameter-elimination/2F1', lambda r, b: (lambda a, bb, c, z: [a, bb, c, bb, c, z])(p_gen(r, b), p_gen(r, b), p_gpos(r, b), p_gpos(r, b), z_in(r, b)),
+        RG('common-parameter-elimination/2F1', lambda r, b: (lambda a, bb, c, e, z: [a, bb, e, c, e, z])(p_gen(r, b), p_gen(r, b), p_low(r, b), p_gpos(r, b), z_in(r, b)),
            fn=f_hyper(3, 2)),
         RG('via-hyper/2F1-annulus', A(p_gen, p_gen, p_low, polar(0.85, 1.25, 0.85, 1.25)), fn=f_hyper(2, 1)),
         RG('via-hyper/1F1-large', A(p_gen, p_low, uniform_bits(-500.0, 500.0)), fn=f_hyper(1, 1)),
@@ -880,6 +882,11 @@ def t_pcf(name):
     return regs
 
 
+def _tiny_x(r, bits):
+    bits = max(2, min(bits, 200))
+    return Fraction(r.choice([-1, 1]) * ((1 << (bits - 1)) | r.getrandbits(bits - 1) | 1), 1 << (bits + r.randint(4, 150)))
+
+
 def exact_cells():
     z11 = (-20.0, 20.0)
     zin = (-0.95, 0.95)
@@ -906,14 +913,18 @@ def exact_cells():
                   make_pfq_cell('hyper', 'terminating/2F4', 2, 4, 1, 30, -200.0, 200.0),
                   make_pfq_cell('hyper', 'terminating/4F1', 4, 1, 1, 15, -2.0, 2.0)],
         'legendre': [make_poly_cell('legendre', 'int-degree/[-1,1]', 0, 0, 80, -1.0, 1.0),
+                     make_poly_cell('legendre', 'int-degree/tiny-argument', 0, 0, 40, 0, 0, xgen=_tiny_x),
                      make_poly_cell('legendre', 'int-degree/outside', 0, 0, 60, -20.0, 20.0),
                      make_poly_cell('legendre', 'int-degree-81..400/[-1,1]', 0, 81, 400, -1.0, 1.0, heavy=True)],
         'chebyt': [make_poly_cell('chebyt', 'int-degree/[-1,1]', 0, 0, 80, -1.0, 1.0),
+                   make_poly_cell('chebyt', 'int-degree/tiny-argument', 0, 0, 40, 0, 0, xgen=_tiny_x),
                    make_poly_cell('chebyt', 'int-degree/outside', 0, 0, 60, -20.0, 20.0),
                    make_poly_cell('chebyt', 'int-degree-81..400/[-1,1]', 0, 81, 400, -1.0, 1.0, heavy=True)],
         'chebyu': [make_poly_cell('chebyu', 'int-degree/[-1,1]', 0, 0, 80, -1.0, 1.0),
+                   make_poly_cell('chebyu', 'int-degree/tiny-argument', 0, 0, 40, 0, 0, xgen=_tiny_x),
                    make_poly_cell('chebyu', 'int-degree/outside', 0, 0, 60, -20.0, 20.0)],
         'hermite': [make_poly_cell('hermite', 'int-degree/moderate', 0, 0, 60, -10.0, 10.0),
+                    make_poly_cell('hermite', 'int-degree/tiny-argument', 0, 0, 40, 0, 0, xgen=_tiny_x),
                     make_poly_cell('hermite', 'int-degree/large-x', 0, 0, 40, -2000.0, 2000.0),
                     make_poly_cell('hermite', 'int-degree-61..300/moderate', 0, 61, 300, -20.0, 20.0, heavy=True)],
         'laguerre': [make_poly_cell('laguerre', 'int-degree/rational-a', 1, 0, 40, -60.0, 60.0),
